@@ -1,0 +1,11 @@
+//go:build verif
+
+package client
+
+// Read-only size accessor for the verification harness (build tag verif only; hook h2 of /verif/DESIGN.md).
+
+// VerifRequestMessageIDs returns the number of entries of requestMessageIDs (token of a confirmable request that is
+// being written -> its message ID): one per writeMessage that has not returned, at most.
+func (cc *Conn) VerifRequestMessageIDs() int {
+	return cc.requestMessageIDs.Length()
+}
